@@ -24,7 +24,7 @@ RULE = ("one evaluation = one seeded history (<= 40 operations) on a long-lived 
 STATE_MEASURE = "distinct (feature, present emodulus keys, temp feature present, cached before?, last edited key) tuples"
 PROBES = ["read_cached_then_config_changed", "key_deleted_after_read", "emodulus_case_A", "emodulus_case_B", "emodulus_case_C",
           "viscosity_changed_while_temperature_present", "temp_feature_replaced", "plugin_read", "unavailable_read_raises",
-          "child_after_refresh", "file_backed", "scenario_switch"]
+          "child_after_refresh", "file_backed", "scenario_switch", "ml_score_replaced"]
 COMPONENTS = {"real": ["dclab RTDCBase.__getitem__/__contains__, AncillaryFeature (hash, availability, priorities)",
                        "af_emodulus/af_basic/af_fl_max_ctc/af_image_contour/af_ml_class, PlugInFeature, temporary features",
                        "RTDC_Dict / RTDC_HDF5 / RTDC_Hierarchy"],
@@ -51,11 +51,12 @@ def plan(tier):
 def make_trace(seed, tier):
     r = seeds.rng(seed, "plan")
     return {"knobs": {"n": r.choice([2, 7, 24]), "backing": r.choice(["dict", "dict", "file", "child"]),
-                      "with_temp": r.random() < 0.5, "with_images": r.random() < 0.5},
+                      "with_temp": r.random() < 0.5, "with_images": r.random() < 0.5,
+                      "ml_innate": r.random() < 0.5},
             "max_ops": r.choice([8, 20, 40]), "ops": None}
 
 
-def make_data(seed, n, with_temp, with_images):
+def make_data(seed, n, with_temp, with_images, ml_innate=True):
     rs = seeds.np_rng(seed, "data")
     d = {
         "area_cvx": rs.uniform(300, 2500, size=n),       # px^2 -> area_um 35..290 at 0.34
@@ -66,9 +67,10 @@ def make_data(seed, n, with_temp, with_images):
         "pos_y": rs.uniform(10, 20, size=n),
         "fl1_max": rs.uniform(10, 1000, size=n),
         "fl2_max": rs.uniform(10, 1000, size=n),
-        "ml_score_abc": rs.uniform(0, 1, size=n),
-        "ml_score_xyz": rs.uniform(0, 1, size=n),
     }
+    if ml_innate:
+        d["ml_score_abc"] = rs.uniform(0, 1, size=n)
+        d["ml_score_xyz"] = rs.uniform(0, 1, size=n)
     if with_temp:
         d["temp"] = rs.uniform(21, 28, size=n)
     if with_images:
@@ -84,7 +86,7 @@ class World:
         k = trace["knobs"]
         self.k = k
         self.n = k["n"]
-        self.data = make_data(ctx.seed, self.n, k["with_temp"], k["with_images"])
+        self.data = make_data(ctx.seed, self.n, k["with_temp"], k["with_images"], k.get("ml_innate", True))
         dclab.register_temporary_feature("tmp_c06")
         dclab.load_plugin_feature(PLUGIN)
         self.path = None
@@ -175,7 +177,8 @@ class World:
                                  ("calculation", "emodulus lut")])
             return {"k": "del", "sec": sec, "key": key}
         if x < 0.52:
-            return {"k": "temp", "dseed": r.randrange(1 << 30)}
+            names = ["tmp_c06", "tmp_c06"] + ([] if self.k.get("ml_innate", True) else ["ml_score_abc", "ml_score_xyz", "ml_score_abc"])
+            return {"k": "temp", "dseed": r.randrange(1 << 30), "name": r.choice(names)}
         if x < 0.60 and self.child is not None:
             return {"k": "refresh"}
         if x < 0.70:
@@ -191,7 +194,9 @@ class World:
             return ["time"]
         if "pixel size" in what:
             return ["area_um", "emodulus", "volume", "c06_a"]
-        if what == "temp":
+        if what.startswith("temp ml_score"):
+            return ["ml_class"]
+        if what.startswith("temp"):
             return ["c06_b", "c06_a"]
         return ["emodulus"]
 
@@ -254,14 +259,20 @@ class World:
             return
         if k == "temp":
             import dclab
-            vals = seeds.np_rng(op["dseed"], "tmp").uniform(1, 2, size=self.n)
-            if "tmp_c06" in self.temps:
+            name = op.get("name", "tmp_c06")
+            if name != "tmp_c06" and self.k.get("ml_innate", True):
+                return
+            lo, hi = (1, 2) if name == "tmp_c06" else (0.01, 0.99)
+            vals = seeds.np_rng(op["dseed"], "tmp").uniform(lo, hi, size=self.n)
+            if name in self.temps:
                 ctx.probe("temp_feature_replaced")
+                if name.startswith("ml_score"):
+                    ctx.probe("ml_score_replaced")
             with ctx.sut("C06.set_temporary_feature"):
-                dclab.set_temporary_feature(self.base, "tmp_c06", vals)
-            self.temps["tmp_c06"] = vals
-            ctx.log("a", "temp", seeds.short_hash(vals))
-            self.mark_edit("temp")
+                dclab.set_temporary_feature(self.base, name, vals)
+            self.temps[name] = vals
+            ctx.log("a", f"temp {name}", seeds.short_hash(vals))
+            self.mark_edit("temp " + name)
             return
         if k == "refresh":
             if self.child is not None:
